@@ -27,10 +27,25 @@ InstShape(ev, args) ==
 \* When the caller's request targets a tied parameter the helper rewrites the other assignments to fit (and what "kept when
 \* consistent with the bounds" means is not determined by the statement); there only the clauses that do not depend on the
 \* request are judged.
+\* ... unless every request is a plain type on a pure chain of variable bounds (T3 : T2 : T1 : ground) that it satisfies: then the
+\* bounds of the parameters the caller did not request are still judged
+ParamIdx(tps, x) == IF \E i \in DOMAIN tps : tps[i].n = x THEN CHOOSE i \in DOMAIN tps : tps[i].n = x ELSE 0
+RECURSIVE ChainOK(_, _, _, _, _)
+ChainOK(CT, tps, pre, j, x) ==
+  LET b == tps[j].b IN
+  IF b = <<>> THEN TRUE
+  ELSE IF b[1].k = "V" THEN (LET k == ParamIdx(tps, b[1].n) IN
+                             IF k = 0 THEN FALSE
+                             ELSE IF tps[k].n \in DOMAIN pre THEN (pre[tps[k].n].k # "W" /\ SubTop(CT, x, pre[tps[k].n]))
+                             ELSE ChainOK(CT, tps, pre, k, x))
+  ELSE IF Ground(b[1]) THEN SubTop(CT, x, b[1]) ELSE FALSE
+SimpleRequests(CT, tps, pre) ==
+  \A j \in DOMAIN tps : tps[j].n \in DOMAIN pre => (pre[tps[j].n].k \notin {"W", "P", "K"} /\ ChainOK(CT, tps, pre, j, pre[tps[j].n]))
 InstJudged(CT, ev, o) ==
-  LET b == InstBad(CT, ev.tps, ev.pre, ev.choices, ev.sw, ev.outs[o].args, ev.outs[o].map) IN
+  LET b == InstBad(CT, ev.tps, ev.pre, ev.choices, ev.sw, ev.outs[o].args, ev.outs[o].map)
+      always == {"OneArgumentPerParameter", "NoPrimitiveOrBareArgument", "SwitchesDeep", "MapConsistent"} IN
   IF InstShape(ev, ev.outs[o].args) = "DependentRequest"
-  THEN b \cap {"OneArgumentPerParameter", "NoPrimitiveOrBareArgument", "SwitchesDeep", "MapConsistent"} ELSE b
+  THEN b \cap (always \cup (IF SimpleRequests(CT, ev.tps, ev.pre) THEN {"WithinBound"} ELSE {})) ELSE b
 BadEvent(CT, ev) ==
   CASE ev.kind = "find_subtypes" ->
          {<<cl, Shape(CT, ev)>> : cl \in FindSubtypesBad(CT, ev.T, Rng(ev.res), ev.include_self, ev.concrete_only, ev.self_in)}
